@@ -29,9 +29,9 @@ var joinedGID = multicast.GenerateGID("c37-joined")
 var subbedGID = multicast.GenerateGID("c37-joined-subscribed")
 
 type mcMsg struct {
-	Gids   []string `json:"gids,omitempty"`  // GIDs / Notify
-	Status int32    `json:"status"`          // Notify
-	Gid    string   `json:"gid,omitempty"`   // FindGroupReq / MulticastMsg / GroupMsg
+	Gids   []string `json:"gids,omitempty"` // GIDs / Notify
+	Status int32    `json:"status"`         // Notify
+	Gid    string   `json:"gid,omitempty"`  // FindGroupReq / MulticastMsg / GroupMsg
 	Limit  int32    `json:"limit"`
 	TTL    int32    `json:"ttl"`
 	Paths  []string `json:"paths,omitempty"`
@@ -42,6 +42,33 @@ type mcMsg struct {
 	Type   int32    `json:"type"`
 	Err    string   `json:"err,omitempty"`
 	Extra  string   `json:"extra,omitempty"` // bytes sent after the first message (hex)
+	// earlier messages of the SAME peer on the same node (state they create is used by this one)
+	Pre []mcPre `json:"pre,omitempty"`
+}
+
+type mcPre struct {
+	H string `json:"h"` // multicast.handshake | multicast.notify | multicast.findgroup | multicast.multicast
+	M mcMsg  `json:"m"`
+}
+
+var mcStreams = map[string]string{"multicast.handshake": "handshake", "multicast.findgroup": "findGroup", "multicast.multicast": "multicast",
+	"multicast.notify": "notify", "multicast.message": "message"}
+
+func mcMarshal(h string, m *mcMsg) []byte {
+	var b []byte
+	switch h {
+	case "multicast.handshake", "multicast.hsout":
+		b, _ = proto.Marshal(&mpb.GIDs{Gid: bytesList(m.Gids)})
+	case "multicast.notify":
+		b, _ = proto.Marshal(&mpb.Notify{Status: m.Status, Gids: bytesList(m.Gids)})
+	case "multicast.findgroup":
+		b, _ = proto.Marshal(&mpb.FindGroupReq{Gid: unhex(m.Gid), Limit: m.Limit, Ttl: m.TTL, Paths: bytesList(m.Paths)})
+	case "multicast.multicast":
+		b, _ = proto.Marshal(&mpb.MulticastMsg{Id: m.ID, CreateTime: m.Ctime, Origin: unhex(m.Origin), Gid: unhex(m.Gid), Data: unhex(m.Data)})
+	case "multicast.message", "multicast.send":
+		b, _ = proto.Marshal(&mpb.GroupMsg{Gid: unhex(m.Gid), Data: unhex(m.Data), Type: m.Type, Err: m.Err})
+	}
+	return b
 }
 
 func bytesList(hs []string) [][]byte {
@@ -88,19 +115,7 @@ func mcFrames(h string, c *Case) ([][]byte, *mcMsg) {
 	}
 	var m mcMsg
 	_ = json.Unmarshal(c.Msg, &m)
-	var b []byte
-	switch h {
-	case "multicast.handshake", "multicast.hsout":
-		b, _ = proto.Marshal(&mpb.GIDs{Gid: bytesList(m.Gids)})
-	case "multicast.notify":
-		b, _ = proto.Marshal(&mpb.Notify{Status: m.Status, Gids: bytesList(m.Gids)})
-	case "multicast.findgroup":
-		b, _ = proto.Marshal(&mpb.FindGroupReq{Gid: unhex(m.Gid), Limit: m.Limit, Ttl: m.TTL, Paths: bytesList(m.Paths)})
-	case "multicast.multicast":
-		b, _ = proto.Marshal(&mpb.MulticastMsg{Id: m.ID, CreateTime: m.Ctime, Origin: unhex(m.Origin), Gid: unhex(m.Gid), Data: unhex(m.Data)})
-	case "multicast.message", "multicast.send":
-		b, _ = proto.Marshal(&mpb.GroupMsg{Gid: unhex(m.Gid), Data: unhex(m.Data), Type: m.Type, Err: m.Err})
-	}
+	b := mcMarshal(h, &m)
 	ch := [][]byte{frame(b)}
 	if m.Extra != "" {
 		ch = append(ch, unhex(m.Extra))
@@ -119,13 +134,26 @@ func runMulticastIn(h, stream string) func(e *env, c *Case) Obs {
 			b, _ := proto.Marshal(&mpb.MulticastMsg{Id: m.ID, CreateTime: m.Ctime, Origin: unhex(m.Origin), Gid: unhex(m.Gid), Data: unhex(m.Data)})
 			chunks = [][]byte{frame(b)}
 		}
+		if m != nil {
+			for pi := range m.Pre { // the same peer's earlier messages, each on its own stream
+				p := &m.Pre[pi]
+				if p.H == "multicast.multicast" && p.M.ID == 0 {
+					p.M.ID = 1<<40 + atomic.AddUint64(&mcSeq, 1)
+				}
+				pr := driveInbound(svc.Protocol(), mcStreams[p.H], e.peer.overlay, false, [][]byte{frame(mcMarshal(p.H, &p.M))}, 30*time.Second)
+				if pr.panicked || pr.hang {
+					return Obs{Panic: pr.panicked, PMsg: pr.pmsg, Hang: pr.hang, Where: "handler(pre:" + p.H + ")"}
+				}
+			}
+		}
+		kn, jn := svc.VerifC37GroupsWithPeers() // state the front reads (created by the earlier messages)
 		before := svc.VerifC37GroupCount()
 		res := driveInbound(svc.Protocol(), stream, e.peer.overlay, false, chunks, 30*time.Second)
 		if h == "multicast.message" {
 			time.Sleep(30 * time.Millisecond) // the reader goroutine of a SendReceive session
 		}
 		return Obs{Panic: res.panicked, PMsg: res.pmsg, Hang: res.hang, Where: "handler", Err: errBit(res.err),
-			Aux: map[string]int{"newgroups": svc.VerifC37GroupCount() - before, "replies": countFrames(res.reply)}}
+			Aux: map[string]int{"newgroups": svc.VerifC37GroupCount() - before, "replies": countFrames(res.reply)}, Lists: map[string][]string{"known": hexes(kn...), "joined": hexes(jn...)}}
 	}
 }
 
@@ -175,17 +203,24 @@ func coqMulticast(h string) func(c *Case, o *Obs) (string, bool) {
 		if mcSize(&m) > 1500 {
 			return "", true
 		}
-		n, _ := idents()
+		n, p37 := idents()
 		switch h {
 		case "multicast.handshake":
 			return hx.CoqApp("CMcHandshake", coqBytesList(m.Gids), coqOutcome(o)), len(m.Gids) > 0
 		case "multicast.notify":
 			return hx.CoqApp("CMcNotify", hx.CoqZ(int64(m.Status)), coqBytesList(m.Gids), coqOutcome(o)), true
 		case "multicast.findgroup":
+			if mcListSize(o) > 1500 {
+				return "", true
+			}
 			return hx.CoqApp("CMcFindGroup", hx.CoqApp("mkFindGroup", coqHB(unhex(m.Gid)), hx.CoqZ(int64(m.Limit)), hx.CoqZ(int64(m.TTL)), coqBytesList(m.Paths)),
-				hx.CoqBool(m.Gid == hx.Hex(joinedGID.Bytes()) || m.Gid == hx.Hex(subbedGID.Bytes())), coqOutcome(o)), true
+				hx.CoqBool(mcHas(o, m.Gid) && !inStrs(hx.Hex(p37.overlay.Bytes()), m.Paths)), coqBytesList(o.Lists["known"]), coqBytesList(o.Lists["joined"]), coqOutcome(o)), true
 		case "multicast.multicast":
-			return hx.CoqApp("CMcMulticast", coqHB(n.overlay.Bytes()), coqHB(unhex(m.Origin)), coqHB(unhex(m.Gid)), coqOutcome(o)), true
+			if mcListSize(o) > 1500 {
+				return "", true
+			}
+			return hx.CoqApp("CMcMulticast", coqHB(n.overlay.Bytes()), coqHB(unhex(m.Origin)), coqHB(unhex(m.Gid)), hx.CoqBool(mcExists(o, &m)),
+				coqBytesList(o.Lists["known"]), coqBytesList(o.Lists["joined"]), coqOutcome(o)), true
 		case "multicast.message":
 			joined := m.Gid == hx.Hex(joinedGID.Bytes()) || m.Gid == hx.Hex(subbedGID.Bytes())
 			sub := m.Gid == hx.Hex(subbedGID.Bytes())
@@ -199,6 +234,51 @@ func coqMulticast(h string) func(c *Case, o *Obs) (string, bool) {
 		}
 		return "", true
 	}
+}
+
+// mcHas: a group object with members exists for gid (then it serves the request itself)
+func mcHas(o *Obs, gid string) bool {
+	for _, l := range [][]string{o.Lists["known"], o.Lists["joined"]} {
+		for _, g := range l {
+			if g == gid {
+				return true
+			}
+		}
+	}
+	return false
+}
+func inStrs(x string, l []string) bool {
+	for _, y := range l {
+		if x == y {
+			return true
+		}
+	}
+	return false
+}
+
+// mcExists: a group OBJECT exists for the message's gid (joined, or created by an earlier handshake / notify of the peer)
+func mcExists(o *Obs, m *mcMsg) bool {
+	if mcHas(o, m.Gid) || m.Gid == hx.Hex(joinedGID.Bytes()) || m.Gid == hx.Hex(subbedGID.Bytes()) {
+		return true
+	}
+	for _, p := range m.Pre {
+		if (p.H == "multicast.handshake" || p.H == "multicast.notify") && inStrs(m.Gid, p.M.Gids) {
+			if p.H == "multicast.notify" && p.M.Status != 1 && p.M.Status != 2 {
+				continue
+			}
+			return true
+		}
+	}
+	return false
+}
+func mcListSize(o *Obs) int {
+	n := 0
+	for _, l := range o.Lists {
+		for _, g := range l {
+			n += len(g)
+		}
+	}
+	return n
 }
 
 // ---------------------------------------------------------------- generator
@@ -266,6 +346,41 @@ func genMulticast(run *hx.Run, add func(*Case)) {
 	}
 	mk("multicast.multicast", "", "multicast-duplicate", &mcMsg{ID: 77, Gid: jg, Origin: peer})
 	mk("multicast.multicast", "", "multicast-duplicate", &mcMsg{ID: 77, Gid: jg, Origin: peer})
+	// ---- SEQUENCES: gids of mixed length announced by the peer (handshake / notify / find-group), then a message that
+	// makes the node compare them (forwarding picks the "closest" known group): 0, 1, 31, 32, 33 bytes, short ones
+	// prefixes of long ones
+	long := r.Bytes(33)
+	mixed := []string{hx.Hex(long[:32]), hx.Hex(long[:1]), hx.Hex(long[:31]), hx.Hex(long), "", hx.Hex(r.Bytes(32)), hx.Hex(r.Bytes(1))}
+	unknown := hx.Hex(r.Bytes(32))
+	seq := func(h, cls string, pre []mcPre, m *mcMsg) {
+		m.Pre = pre
+		mk(h, "", cls, m)
+	}
+	hs := func(gids ...string) mcPre { return mcPre{H: "multicast.handshake", M: mcMsg{Gids: gids}} }
+	nt := func(st int32, gids ...string) mcPre {
+		return mcPre{H: "multicast.notify", M: mcMsg{Status: st, Gids: gids}}
+	}
+	// corpus: the witness of seeded change C37-1 (32-byte gid + its 1-byte prefix, then a message for an unknown group)
+	seq("multicast.multicast", "mixed-length-gids-then-multicast", []mcPre{hs(mixed[0], mixed[1])}, &mcMsg{Gid: unknown, Origin: peer, Data: "01"})
+	seq("multicast.findgroup", "mixed-length-gids-then-findgroup", []mcPre{hs(mixed[0], mixed[1])}, &mcMsg{Gid: unknown, Limit: 2, TTL: 1})
+	pres := [][]mcPre{
+		{hs(mixed[1], mixed[0])}, {hs(mixed...)}, {nt(1, mixed[0], mixed[2])}, {nt(1, mixed[3]), hs(mixed[0], mixed[1], mixed[4])},
+		{hs(mixed[0]), nt(1, mixed[1])}, {hs(mixed[0], mixed[1]), nt(2, mixed[0])}, {hs(jg, mixed[1])}, {hs(jg, sg, mixed[2])},
+		{hs(mixed[5], mixed[6])}, {hs(mixed[4], mixed[0], mixed[1])},
+		{mcPre{H: "multicast.findgroup", M: mcMsg{Gid: mixed[1], Limit: 1}}, hs(mixed[0], mixed[3])},
+	}
+	for _, pre := range pres {
+		for _, g := range []string{unknown, "", hx.Hex(long[:1]), hx.Hex(long[:31]), hx.Hex(long), hx.Hex(long[:32])} {
+			if !run.Thorough() && r.Intn(2) != 0 {
+				continue
+			}
+			seq("multicast.multicast", "mixed-length-gids-then-multicast", pre, &mcMsg{Gid: g, Origin: peer, Data: "02"})
+			seq("multicast.findgroup", "mixed-length-gids-then-findgroup", pre, &mcMsg{Gid: g, Limit: 3, TTL: int32(r.Intn(3))})
+		}
+		seq("multicast.handshake", "mixed-length-gids-then-handshake", pre, &mcMsg{Gids: []string{mixed[r.Intn(len(mixed))]}})
+		seq("multicast.notify", "mixed-length-gids-then-notify", pre, &mcMsg{Status: 2, Gids: []string{mixed[0], mixed[1]}})
+		seq("multicast.message", "mixed-length-gids-then-message", pre, &mcMsg{Gid: mixed[1], Type: 0})
+	}
 	// ---- client reads
 	for _, gs := range [][]string{nil, {jg}, {"", "01"}, {hx.Hex(make([]byte, 500))}} {
 		mk("multicast.hsout", "", "gids-reply", &mcMsg{Gids: gs})
